@@ -16,6 +16,7 @@ def known_findings(rep):
 
 def run(rep, tier, seed, model_ok):
     rng = random.Random(seed)
+    parsechk.corpus_campaign(rep)
     n = 900 if tier == "quick" else 9000
     rep.cov["rule"] = ("structured-mode files from the canonical file language with statements over the key-value grammar: "
                        "0-3 other key-values before/after `ref`, all capture modifiers, shorthand keys, string values "
